@@ -103,6 +103,11 @@ CHECKS["C17"] = ("exploration",
    "For every document of the C16 generator and for text / attribute values ranging over all strings of length <=2 (3 thorough) over {&amp; &lt; > quote apostrophe a SP LF &#13; e-acute ]]> TAB &#9; &#10; &#133;}, comments and PIs over 10 strings: the RcDom produced by the first parse is serialized and parsed again; the two model-DOM trees must be equal in element and attribute local names, prefixes, namespace URIs, attribute values, text, comments and PIs (doctype ids excluded).",
    XNOTE + " No model: the first parse is the specification of the second.",
    "DESIGN.md §3 C17", "xml")
+CHECKS["C02"] = ("model_checking",
+   "explicit-state search over the real tokenizer+tree builder compared with a reference transliteration of the WHATWG tree-construction stage (R-tree over R-tok)",
+   "Every execution of the E2 jobs restricted to the C02 alphabet (150 lexemes) is parsed a second time by R-tok + R-tree, an independent boring transliteration of the WHATWG tokenizer and tree-construction algorithms (insertion modes, stack/active-formatting list with Noah's ark, adoption agency with the 8/3 limits, foster parenting, reset-insertion-mode, template mode stack, foreign content and integration points, attribute adjustments, quirks table, fragment set-up). After end() the final model DOM (node kinds and order, names, namespaces, attributes with namespace/prefix/value in order, text, comments, doctype, template contents, duplicate-attribute flag) and the quirks mode must be identical. Scripting on/off, iframe-srcdoc, initial quirks and 33 fragment contexts are configurations of the jobs.",
+   E2NOTE + " Excluded from the C02 alphabet only (spec text of the 2025 customizable-select parser not verifiable offline): select, option, optgroup, selectedcontent, hr, keygen, isindex, search, dialog, datalist; they stay in the alphabets of C04/C05/C06/C18/C20. R-tree answers attach_declarative_shadow = false like the sink. Parse errors are not compared.",
+   "DESIGN.md §3 C02", "E2 tree")
 PENDING = {}
 def main():
     checks = []
